@@ -1149,3 +1149,22 @@ Proof. cbv zeta. split; [|split; [|split]].
   - repeat constructor; discriminate.
   - unfold locs_in_range. cbn [cycles nq o_loc]. repeat (constructor; try lia).
   - vm_compute. repeat split; reflexivity. Qed.
+
+(* ---- composition with the history theorem (CThm2.v) ------------------------------------------------ *)
+From BQ Require Import circuit.CThm2.
+
+Lemma in_range_locs c : in_range c <-> locs_in_range c.
+Proof. unfold in_range, all_qudits, locs_in_range. split.
+  - intros H. apply Forall_forall. intros cy Hcy. apply Forall_forall. intros o Ho. apply Forall_forall. intros a Ha.
+    apply (H cy o a); auto.
+  - intros H cy o a Hcy Ho Ha. rewrite Forall_forall in H. specialize (H cy Hcy). rewrite Forall_forall in H.
+    specialize (H o Ho). rewrite Forall_forall in H. apply H. exact Ha. Qed.
+
+(* after every history of the modelled calls (any arguments; unfold_all aside) from the empty circuit,
+   the DAG iterator yields exactly the grid iteration - provided no operation has an empty location *)
+Theorem history_dag_iter ks n rs :
+  Forall no_unfold_all ks ->
+  let c := fold_left do_callF ks (mkC n rs []) in
+  wf_locs c -> dag_iter c = map (fun p => (fst p, Some (snd p))) (ops_with_cycles c).
+Proof. intros Hk c Hw. destruct (history_inv_range_empty ks n rs Hk) as [HI Hr].
+  apply dag_iter_sorted; auto. apply in_range_locs. exact Hr. Qed.
